@@ -36,8 +36,14 @@ def gen(rng, i, tier):
     for k in range(4):
         if rng.random() < 0.12:
             vals[k] = 0.0        # "all scale/offset values": zero is a value, not "absent"
+    # the transform window (qmin/qmax) re-set through its setters after the data were loaded: it belongs to loading and to the transforms,
+    # the merge stores what was loaded
+    late = None
+    if rng.random() < 0.15:
+        allx = sorted(x for d in ds for x in d["x"])
+        late = [float(allx[len(allx) // 4]) if rng.random() < 0.7 else None, float(allx[(3 * len(allx)) // 4]) if rng.random() < 0.7 else None]
     return dict(datasets=ds, present=present, containers=containers, vals=vals, subset="".join(map(str, present)) + f"/{containers}",
-                reverse=bool(rng.random() < 0.5))
+                reverse=bool(rng.random() < 0.5), late_window=late)
 
 
 def opts(case):
@@ -85,6 +91,12 @@ def evaluate(case):
             tiny = np.array([[1e-9], [float(s.sq_individuals[1][0]) + 0.25], [0.0]])
             s.sq_individuals = np.concatenate([tiny, s.sq_individuals], axis=1)
         stored = s.sq_individuals.copy()
+        if case.get("late_window"):
+            lo, hi = case["late_window"]
+            if lo is not None:
+                s.qmin = lo
+            if hi is not None:
+                s.qmax = hi
         s.merge_data()
     except Exception as ex:  # noqa: BLE001
         return [f"merge with post-merge options {o!r} raises {type(ex).__name__}({ex}) — an absent key must behave as its identity value"]
@@ -93,6 +105,9 @@ def evaluate(case):
     F = np.asarray(s.sq_master[s.qsq_minus_one_title], dtype=float)
     if not np.array_equal(q, s.q_master[s.qsq_minus_one_title]):
         fails.append("the two stored curves are on different grids")
+    if not (q.shape == S.shape == F.shape):
+        return fails + [f"stored S(Q) has {S.size} points, stored Q[S(Q)-1] has {F.size}, their stored Q grid has {q.size}"
+                        + (" (transform window re-set after loading)" if case.get("late_window") else "")]
     if np.isnan(S).any() or np.isnan(F).any():
         fails.append("stored curves contain NaN")
     ks, kq = keys(stored[0]), keys(q)
